@@ -53,7 +53,8 @@ def run(prop, P, tier, seed, replay, extra):
         binary = bins[r.get("binary", 0)]
         env = dict(os.environ)
         env.update(D.SAN_ENV)
-        cmd = [binary, "--tier", r.get("tier", tier), "--replay-shard", r["shard"], "--replay-index", str(r["index"])]
+        cmd = [binary, "--tier", r.get("tier", tier), "--replay-shard", r["shard"], "--replay-index", str(r["index"]),
+               "--replay-text", r.get("case", "")]
         pr = subprocess.run(cmd, env=env)
         print("replay exit status %d (%s)" % (pr.returncode, "still fails" if pr.returncode != 0 else "passes"))
         return 0 if pr.returncode == 0 else 1
